@@ -109,11 +109,13 @@ def handle : List String → Option String
       let ops ← ops.mapM parseOp
       pure (String.intercalate "|" (runOps s0 ops))
   | "ws.ops" :: cfg :: start :: ops => do
-      -- the history variable `sentOps` (opcode of every frame the engine produced) after the whole script
+      -- the history variables `sentOps` (opcode of every frame the engine produced) and `closeSent` (its length)
+      -- after the whole script
       let c ← parseCfg cfg
       let s0 ← (if start = "open" then some (Ws.start c) else if start = "connecting" then some (startConnecting c) else none)
       let ops ← ops.mapM parseOp
-      pure (String.intercalate "," ((run s0 ops).sentOps.map toString) ++ "@" ++ stStr (run s0 ops).st)
+      pure (String.intercalate "," ((run s0 ops).sentOps.map toString) ++ "@" ++ stStr (run s0 ops).st
+        ++ "@" ++ toString (run s0 ops).closeSent.length)
   | ["ws.judge", cfg, h] => do
       let c ← parseCfg cfg
       let (evs, v, rest) := WsSpec.judge (WsSpec.Ctx.ofCfg c) (← Hex.decode h)
